@@ -10,6 +10,7 @@ extern template bool run_maxface<float> (bool); extern template bool run_maxface
 extern template bool run_signed<float> (bool); extern template bool run_signed<double> (bool);
 extern template bool run_negzero<float> (bool); extern template bool run_negzero<double> (bool);
 extern template bool run_guard<float> (bool); extern template bool run_guard<double> (bool);
+extern template bool run_ovf<float> (bool); extern template bool run_ovf<double> (bool);
 }
 using namespace vf;
 
@@ -63,6 +64,11 @@ int main (int argc, char** argv)
         : "origin 0; per-axis (min,max) in {(Q,X),(-X,-Q),(X,max),(-max,-X)} for X in {E,E+1,max-u,max} (E = fl(max*3/4), u = ulp(max)), (-Q,Q), (Q,-Q) (18^3 boxes) x directions {0,+-3/4,+-(1-eps/2),+-1,+-(1+eps)}^3 minus 0; exact __int128 oracle";
     run_stage ("guard.float", grd, [&] { return c14::run_guard<float> (th); });
     run_stage ("guard.double", grd, [&] { return c14::run_guard<double> (th); });
+    const char* ovf = th
+        ? "elongated boxes in the overflow regimes: per-axis (min,max) in {(0,2),(0,8),(4,8),(-8,-2),(2,2),(-2,4)}s (216 boxes) x origins {-9,-5,-1,0,1,3,4,6,9}^3 s x directions {0,+-denorm_min,+-min,+-2^-30,+-1}^3 minus 0, s in {1, 2^(emax-28)}; exact slab oracle + the documented-fallback model in regimes 2/3"
+        : "elongated boxes in the overflow regimes: per-axis (min,max) in {(0,2),(0,8),(4,8),(-8,-2)}s (64 boxes) x origins {-9,-1,0,1,3,6,9}^3 s x directions {0,+-denorm_min,+-min,+-2^-30,+-1}^3 minus 0, s in {1, 2^(emax-28)}; exact slab oracle + the documented-fallback model in regimes 2/3";
+    run_stage ("overflow-fallback.float", ovf, [&] { return c14::run_ovf<float> (th); });
+    run_stage ("overflow-fallback.double", ovf, [&] { return c14::run_ovf<double> (th); });
     R ().sample ("box{(1,-1,-1),(MAX,1,1)} pos=(0,0,0) dir=(1,0,0): slab parameters 1 and MAX, both representable -> the line meets the box, entry=(1,0,0), exit=(MAX,0,0)");
     R ().sample ("box{(0,0,0),(1,1,1)} pos=(-1,-1,1) dir=(1,1,0): grazes the top edge from corner to corner -> hit, ip=(0,0,1)");
     R ().sample ("box{(0,0,0),(3,3,3)} pos=(4,4,4) dir=(1,2,2): line hits, ray points away -> intersects false, findEntryAndExitPoints true");
